@@ -6,6 +6,7 @@ import (
 	"fmt"
 	"net/netip"
 	"strings"
+	"sync/atomic"
 	"time"
 
 	"github.com/DataDog/datadog-traceroute/sack"
@@ -39,7 +40,7 @@ func checkC20() fw.Check {
 	return fw.Check{
 		Prop:  "C20",
 		Level: "exploration",
-		Rule: "one case = RunTraceroute(protocol tcp) with (method in {syn,sack,prefer_sack}) x (target capability in {SACK ok, SACK ok with timestamps, SACK ok with an initial sequence number just below 2^32, SYN-ACK without SACK-permitted, ACKs without SACK blocks, port closed (real RST: dial refused), handshake never shown to the capture handle}) x (non-capability failure injected into the SACK attempt at the factory / 1st filter / 2nd filter / k-th send / k-th read, wrapped by the production code at its real depth) x (0..2 end-to-end probes); the target is a real listener in the peer namespace plus a simulated SYN-ACK/ACK stream; observations: probe kind of every packet on the wire per handle, accept count of the listener, error chain, result; oracle = decision table of the statement. " +
+		Rule: "one case = RunTraceroute(protocol tcp) with (method in {syn,sack,prefer_sack}) x (target capability in {SACK ok, SACK ok with timestamps, SACK ok with an initial sequence number just below 2^32, SYN-ACK without SACK-permitted, ACKs without SACK blocks, port closed (real RST: dial refused), handshake never shown to the capture handle}) x (non-capability failure injected into the SACK attempt at the factory / 1st filter / 2nd filter / k-th send / k-th read / every read from 45 ms after the destination's first selective acknowledgement, wrapped by the production code at its real depth) x (0..2 end-to-end probes); the target is a real listener in the peer namespace plus a simulated SYN-ACK/ACK stream; observations: probe kind of every packet on the wire per handle, accept count of the listener, error chain, result; oracle = decision table of the statement. " +
 			"distinct_nontrivial counts distinct (method, capability, fault, e2e>0, outcome) tuples executed",
 		Workers:       8,
 		MinNontrivial: 40,
@@ -47,7 +48,7 @@ func checkC20() fw.Check {
 		Gen: func(tier string, seed int64) []fw.Case {
 			var reqs []c20Req
 			caps := []string{"sack-ok", "sack-ok-ts", "sack-ok-chatter", "sack-ok-slow-synack", "sack-ok-isn-wrap", "sack-ok-timeout0", "no-sackperm", "no-blocks", "closed", "no-handshake"}
-			faults := []string{"factory", "filter1", "filter2", "send1", "send3", "read2", "read9", "read-late"}
+			faults := []string{"factory", "filter1", "filter2", "send1", "send3", "read2", "read9", "read-late", "read-after-dest"}
 			for _, m := range []string{"syn", "sack", "prefer_sack"} {
 				for _, cp := range caps {
 					for _, e2e := range []int{0, 2} {
@@ -157,6 +158,7 @@ func runC20(c *fw.Ctx, id string, rq c20Req) {
 		}
 	}
 	dist := rq.dist
+	var poisoned atomic.Bool
 	env.modelFor = func(k int, e *simEnv) *pathModel {
 		m := flowPath(k, e, dist, true, 5*time.Millisecond)
 		if e.spec.V.Proto == "syn" {
@@ -179,6 +181,22 @@ func runC20(c *fw.Ctx, id string, rq c20Req) {
 				}
 			}
 		}
+		if e.spec.V.Proto == "sack" && rq.fault == "read-after-dest" {
+			// the capture handle fails hard 40 ms after the destination's first selective acknowledgement arrived: the
+			// destination is known, the engine is only collecting stragglers - and the attempt has failed all the same
+			prev := m.extra
+			m.extra = func(e *simEnv, p *refmatch.Probe) {
+				if prev != nil {
+					prev(e, p)
+				}
+				if p.TTL == dist {
+					time.AfterFunc(45*time.Millisecond, func() {
+						poisoned.Store(true)
+						env.w.PoisonHandle(e.handle, fmt.Errorf("capture layer: %w", errC20))
+					})
+				}
+			}
+		}
 		if e.spec.V.Proto == "sack" && rq.cap == "no-blocks" {
 			m.destBuild = func(e *simEnv, p *refmatch.Probe) []byte {
 				return gen.TCPReply(e.spec.Target, e.local, e.spec.Port, e.lport, 0x51000001, e.isn, wirefmt.TCPAck, nil, nil, nil)
@@ -187,7 +205,7 @@ func runC20(c *fw.Ctx, id string, rq c20Req) {
 		return m
 	}
 	// the SACK attempt of a run is always the first handle that run opens; with one query it is handle 0
-	if rq.fault != "none" {
+	if rq.fault != "none" && rq.fault != "read-after-dest" {
 		f := simnet.Fault{Err: fmt.Errorf("capture layer: %w", errC20)}
 		key := map[string]simnet.FaultKey{
 			"factory": {Handle: -1, Op: "factory", K: 1}, "filter1": {Handle: 0, Op: "filter", K: 1}, "filter2": {Handle: 0, Op: "filter", K: 2},
@@ -217,7 +235,7 @@ func runC20(c *fw.Ctx, id string, rq c20Req) {
 		kinds[em.Handle][k]++
 		order = append(order, fmt.Sprintf("h%d:%s:ttl%d", em.Handle, k, em.Pkt.TTL))
 	}
-	fired := len(env.w.Fired) > 0
+	fired := len(env.w.Fired) > 0 || poisoned.Load()
 	nHandles := len(env.w.Handles)
 	env.w.Unlock()
 	accepted := 0
